@@ -82,10 +82,22 @@ pub fn probe_cov_stroke(w: i32, h: i32, ctm: &Transform, path: &Path, style: &St
 /// The per-pixel source colour (after global alpha) under `ctm`, observed with a full-surface
 /// Src fill on a scratch target (identity I2). None if the transform is not invertible.
 pub fn probe_source(w: i32, h: i32, ctm: &Transform, src: &SrcSpec, alpha: f32) -> Option<Vec<u32>> {
+    probe_source_checked(w, h, ctm, src, alpha).ok()
+}
+
+pub enum ProbeFail {
+    /// the transform is not invertible, or puts the surface beyond 1e6 user units
+    OutOfRange,
+    /// the transform is fine, but the fill of a rectangle containing the whole surface with 3 px to spare
+    /// left this pixel with this coverage: not a property of the source, a defect in its own right
+    NotCovered(i32, i32, u8),
+}
+
+pub fn probe_source_checked(w: i32, h: i32, ctm: &Transform, src: &SrcSpec, alpha: f32) -> Result<Vec<u32>, ProbeFail> {
     let t = T64::from(ctm);
-    let inv = t.inverse()?;
+    let inv = t.inverse().ok_or(ProbeFail::OutOfRange)?;
     if ctm.inverse().is_none() {
-        return None;
+        return Err(ProbeFail::OutOfRange);
     }
     // a device-space rectangle around the surface, expressed in user space
     let m = 3.0;
@@ -94,7 +106,7 @@ pub fn probe_source(w: i32, h: i32, ctm: &Transform, src: &SrcSpec, alpha: f32) 
     for (i, c) in corners.iter().enumerate() {
         let (x, y) = inv.apply(c.0, c.1);
         if !x.is_finite() || !y.is_finite() || x.abs() > 1e6 || y.abs() > 1e6 {
-            return None;
+            return Err(ProbeFail::OutOfRange);
         }
         if i == 0 {
             pb.move_to(x as f32, y as f32)
@@ -105,13 +117,13 @@ pub fn probe_source(w: i32, h: i32, ctm: &Transform, src: &SrcSpec, alpha: f32) 
     pb.close();
     let path = pb.finish();
     let cov = probe_cov_fill(w, h, ctm, &path, true);
-    if cov.iter().any(|c| *c != 255) {
-        return None;
+    if let Some(k) = cov.iter().position(|c| *c != 255) {
+        return Err(ProbeFail::NotCovered(k as i32 % w.max(1), k as i32 / w.max(1), cov[k]));
     }
     let mut dt = DrawTarget::new(w, h);
     dt.set_transform(ctm);
     src.with(|s| dt.fill(&path, s, &opts(BlendMode::Src, alpha, true)));
-    Some(dt.get_data().to_vec())
+    Ok(dt.get_data().to_vec())
 }
 
 /// The clip a target currently applies, observed by filling the whole (zeroed) surface with white
